@@ -329,7 +329,11 @@ pub fn c16_from_iter<const N: usize, const L: usize>() {
     } else {
         vf::reach(2);
         vf::check(panicked, 1603);
-        vf::check(src.pulled <= overflow_at + 1, 1602); // nothing is pulled past the item that does not fit
+        // The property does not say how far the source has been read when the overflow panic is raised, only that it is read front to
+        // back, every item once: an implementation that looks ONE item ahead (e.g. through `Peekable`) before it inserts is tolerated;
+        // reading further past the item that does not fit means that items are buffered or the source is drained, which is not
+        // "inserting the items one by one"
+        vf::check(src.pulled <= overflow_at + 2, 1602);
     }
     drop(out);
     drop(src);
@@ -470,10 +474,10 @@ harnesses! {
     c16_from_array: [0] [1] [2] [3] [4];
     c16_set_from: [1, 2] [2, 3] [3, 4];
     c16_set_from_array: [0] [1] [2] [3] [4];
-    c18_insert_unchecked: [1] [2] [3];
+    c18_insert_unchecked: [1] [2] [3] [4];
     c18_disjoint_unchecked: [2, 0] [1, 1] [2, 2] [3, 2] [2, 3] [3, 3];
     @deep
-    c13_disjoint: [4, 3] [3, 4] [4, 4] [5, 2];
+    c13_disjoint: [4, 3] [3, 4] [4, 4] [5, 2] [2, 9] [2, 17];
     c13_disjoint_tok: [4] [5];
     c15_clone: [4] [5];
     c15_set_clone: [4] [5];
@@ -483,6 +487,6 @@ harnesses! {
     c16_from_array: [5];
     c16_set_from: [4, 5];
     c16_set_from_array: [5];
-    c18_insert_unchecked: [4] [5];
+    c18_insert_unchecked: [5];
     c18_disjoint_unchecked: [4, 3] [3, 4] [4, 4];
 }
